@@ -36,9 +36,10 @@ BEHS = ["falsy", "truthy", "raise", "raise_if_exc"]
 BEHS_EXTRA = BEHS + ["raise_base", "raise_base_if_exc", "reraise_same", "reraise_same",
                      # standard exception types a library may be tempted to catch for its own purposes
                      "raise_std:StopAsyncIteration", "raise_std:RuntimeError", "raise_std:KeyError", "raise_std:AttributeError",
-                     "raise_std:TypeError", "raise_std:GeneratorExit", "raise_chained", "raise_chained", "raise_while_reraising", "raise_while_reraising"]
+                     "raise_std:TypeError", "raise_std:GeneratorExit", "raise_std:Exception", "raise_std:BaseException", "raise_chained", "raise_chained", "raise_while_reraising", "raise_while_reraising"]
 STD = {"StopAsyncIteration": StopAsyncIteration, "RuntimeError": RuntimeError, "KeyError": KeyError,
-       "AttributeError": AttributeError, "TypeError": TypeError, "GeneratorExit": GeneratorExit}
+       "AttributeError": AttributeError, "TypeError": TypeError, "GeneratorExit": GeneratorExit,
+       "Exception": Exception, "BaseException": BaseException}
 FALSY = [None, False, 0, ""]
 TRUTHY = [True, 1, "y"]
 N_HIST = {"quick": 30000, "thorough": 1000000}
